@@ -68,16 +68,43 @@ abbrev Fail := String × String
 
 def legs (r : List P) : List (P × P) := r.zip r.tail
 
-def explainEdge (pr : Params) (d : Drawing) (e : Edge) : List Fail := Id.run do
+/-- what the explanation code knows about a whole-graph-is-a-tree case (labels only): the growth axis
+    (`defaultTreeGrowthDir` EAST/WEST ⇒ x) and the rank distance `treeLayoutScalar_rankSep·IEL = IEL`
+    that `Tree::symmetricLayout` puts between the centres of adjacent ranks -/
+structure TreeInfo where
+  isTree : Bool
+  axialX : Bool
+  rankSep : Rat
+
+def TreeInfo.axial (ti : TreeInfo) (n : Node) : Rat := if ti.axialX then n.cx else n.cy
+
+/-- the two nodes sit in adjacent ranks of a pure tree: their centres are exactly one rank distance apart
+    along the growth axis (to 1e-6) -/
+def TreeInfo.adjacentRanks (ti : TreeInfo) (a b : Node) : Bool :=
+  ti.isTree && absR (absR (ti.axial a - ti.axial b) - ti.rankSep) ≤ (1 : Rat) / 1000000
+
+/-- ids of nodes of a pure tree whose *padded* box (the obstacle the whole-tree routing in doHOLA uses: the
+    box grown by nodePaddingScalar·IEL/2 per side) overlaps the padded box of a node of an adjacent rank -/
+def rankOverlapIds (pr : Params) (ti : TreeInfo) (d : Drawing) : List Nat :=
+  if !ti.isTree then [] else
+  d.nodes.filterMap (fun a =>
+    if d.nodes.any (fun b => b.id != a.id && ti.adjacentRanks a b &&
+        rectsOverlap pr.overlapTol (a.box.shrink (-pr.padE)) (b.box.shrink (-pr.padE)))
+    then some a.id else none)
+
+def explainEdge (pr : Params) (d : Drawing) (ro : List Nat) (e : Edge) : List Fail := Id.run do
   let mut out : List Fail := []
   let tag := s!"e{e.id}({e.src}-{e.tgt})"
+  -- the padded box of an end node of this edge overlaps the padded box of a node of an adjacent tree rank
+  let atOverlap := ro.contains e.src || ro.contains e.tgt
   if !routeOrthogonal e.route then
     if e.route.length < 2 then out := out ++ [("noRoute", s!"{tag} has {e.route.length} route points")]
     else
       for (p, q) in legs e.route do
         if !legOrth p q then
           let dev := minR (absR (p.x - q.x)) (absR (p.y - q.y))
-          let lab := if dev ≤ (1 : Rat) / 1000000 then "routeOrthogonal~hairline" else "routeOrthogonal"
+          let lab := if dev ≤ (1 : Rat) / 1000000 then "routeOrthogonal~hairline"
+            else if atOverlap then "routeOrthogonal~treeRankOverlap" else "routeOrthogonal"
           out := out ++ [(lab, s!"{tag} leg ({r2s p.x},{r2s p.y})->({r2s q.x},{r2s q.y}) off-axis by {r2s (dev * 1000000000)}e-9")]
   if !edgeEndsOk pr.padE d e then
     out := out ++ [("routeEndsAtNodes", s!"{tag} ends not within {r2s pr.padE} of its end nodes")]
@@ -90,7 +117,8 @@ def explainEdge (pr : Params) (d : Drawing) (e : Edge) : List Fail := Id.run do
 def adjacentEdge? (d : Drawing) (a b : Nat) : Option Edge :=
   d.edges.find? (fun e => (e.src == a && e.tgt == b) || (e.src == b && e.tgt == a))
 
-def explainSep (pr : Params) (d : Drawing) (isTree : Bool) (sp : SepPair) : List Fail :=
+def explainSep (pr : Params) (d : Drawing) (ti : TreeInfo) (sp : SepPair) : List Fail :=
+  let isTree := ti.isTree
   match d.node? sp.src, d.node? sp.tgt with
   | some s, some t =>
     let one (nm : String) (c : SepDim) (ps pt ws wt : Rat) : List Fail :=
@@ -99,6 +127,10 @@ def explainSep (pr : Params) (d : Drawing) (isTree : Bool) (sp : SepPair) : List
         let adj := adjacentEdge? d sp.src sp.tgt
         let lab :=
           if align && isTree && adj.isSome then "sep~treeCentreAlign"
+          -- inter-rank BDRY >= 0 constraint of Tree::addConstraints along the growth axis, between nodes that the
+          -- layout placed exactly one rank distance apart: the nodes are longer than the rank distance
+          else if c.st == .ineq && c.gt == .bdry && c.gap == 0 && ((nm == "x") == ti.axialX) && ti.adjacentRanks s t
+            then "sep~treeRankSep"
           else if align && (match adj with | some e => e.route.length ≥ 3 | none => false) then "sep~staleAlignBentEdge"
           else if align && adj.isSome then "sep~staleAlignStraightEdge"
           else if c.st == .ineq && c.gt == .bdry && dimHolds pr.sepTol 0 c ps pt ws wt then "sep~bdryExtraGap"
@@ -108,8 +140,9 @@ def explainSep (pr : Params) (d : Drawing) (isTree : Bool) (sp : SepPair) : List
     one "x" sp.x s.cx t.cx s.w t.w ++ one "y" sp.y s.cy t.cy s.h t.h
   | _, _ => [("sepSatisfied", s!"sep {sp.src}->{sp.tgt} refers to a node that is not in the graph")]
 
-def explain (pr : Params) (before after : Drawing) (seps : List SepPair) : List Fail := Id.run do
+def explain (pr : Params) (ti : TreeInfo) (before after : Drawing) (seps : List SepPair) : List Fail := Id.run do
   let mut out : List Fail := []
+  let ro := rankOverlapIds pr ti after
   if !sameGraph before after then
     out := out ++ [("sameGraph", s!"ids before={before.ids} after={after.ids}; edges before={before.ekeys} after={after.ekeys}")]
   if !sizesKept before after then
@@ -126,12 +159,12 @@ def explain (pr : Params) (before after : Drawing) (seps : List SepPair) : List 
     for i in [0:ns.size] do
       for j in [i+1:ns.size] do
         if rectsOverlap pr.overlapTol ns[i]!.box ns[j]!.box then
-          out := out ++ [("noNodeOverlap", s!"nodes {ns[i]!.id} and {ns[j]!.id} overlap")]
+          let lab := if ti.adjacentRanks ns[i]! ns[j]! then "noNodeOverlap~treeRanks" else "noNodeOverlap"
+          out := out ++ [(lab, s!"nodes {ns[i]!.id} and {ns[j]!.id} overlap")]
   for e in after.edges do
-    if !edgeOk pr.padE pr.shrink after e then out := out ++ explainEdge pr after e
-  let isTree := after.edges.length + 1 == after.nodes.length
+    if !edgeOk pr.padE pr.shrink after e then out := out ++ explainEdge pr after ro e
   for sp in seps do
-    if !sepHolds pr.sepTol pr.extraBdry after sp then out := out ++ explainSep pr after isTree sp
+    if !sepHolds pr.sepTol pr.extraBdry after sp then out := out ++ explainSep pr after ti sp
   return out
 
 def dedup (xs : List String) : List String := xs.foldl (fun acc x => if acc.contains x then acc else acc ++ [x]) []
@@ -171,13 +204,15 @@ def checkCase (c : Case) : CaseResult := Id.run do
   let nb := if n0.size ≤ 10 then "n.05-10" else if n0.size ≤ 25 then "n.11-25" else if n0.size ≤ 40 then "n.26-40" else "n.41+"
   let stats : List (String × Nat) :=
     [("nodes", n0.size), ("edges", e0.size), ("seppairs", seps.size), ("bends", bends), (nb, 1),
-     ("opt.aca." ++ o[0]!, 1), ("opt.nearalign." ++ o[1]!, 1), ("opt.aspect." ++ o[5]!, 1),
+     ("opt.aca." ++ o[0]!, 1), ("opt.nearalign." ++ o[1]!, 1), ("opt.aspect." ++ o[5]!, 1), ("opt.growth." ++ (o[7]?.getD "1"), 1),
      (if isTree then "shape.tree" else "shape.cyclic", 1),
      (if maxDeg ≥ 5 then "maxdeg.5+" else "maxdeg.le4", 1),
      ("pos." ++ (((c.get1 "pos").bind (·[0]?)).getD "?"), 1), ("size." ++ (((c.get1 "size").bind (·[0]?)).getD "?"), 1)]
   if ok then
     return { verdict := .ok, nontrivial := moved && e1.size > 0, stats := stats ++ [("ok", 1)] }
-  let fails := explain pr before after seps.toList
+  let growth := o[7]?.getD "1"
+  let ti : TreeInfo := ⟨isTree, growth == "0" || growth == "2", iel⟩
+  let fails := explain pr ti before after seps.toList
   let labels := dedup (fails.map (·.1))
   -- at most two details per label, so that every failing clause is visible in the message
   let details := labels.flatMap (fun l => ((fails.filter (·.1 == l)).map (·.2)).take 2)
